@@ -33,6 +33,7 @@ type prop struct {
 	lateAt    int64
 	lateVoted bool
 	triedW    bool
+	recreated bool
 	funders   []*world.Account
 	created   int64
 	fundDl    int64
@@ -233,6 +234,16 @@ func (g *Governance) Plan(c *Ctx) []hist.TxSpec {
 					out = append(out, g.vote(c, p, v, o))
 				}
 			} else if store == "propFinalized" || store == "propFinalizeFailed" {
+				if !p.recreated {
+					// the finished proposal's id is used for a new proposal: ids are used once
+					p.recreated = true
+					q := *p
+					q.fundDl = c.H + 5
+					q.typ = governance.ProposalTypeGeneral
+					out = append(out, g.create(c, &q, ""))
+					out[len(out)-1].Note = "create a proposal under the id of a finalised one (must fail)"
+					continue
+				}
 				p.done = true
 			} else if store == "propFailed" && rec.Outcome == int(governance.ProposalOutcomeInsufficientVotes) {
 				// expired with its goal met: the funds stay in escrow
